@@ -255,6 +255,105 @@ pub fn eval_pick(ctx: &mut Ctx, spec: &str, msg: &[u8]) {
     }
 }
 
+/// every way of building a list from explicit sizes gives the same set, iterates in capacity order, and
+/// `into_iter` / `iter` / `contains` / `is_empty` / `extend` agree
+pub fn eval_construction(ctx: &mut Ctx, a: &[&'static Row], b: &[&'static Row]) {
+    ctx.eval();
+    let case = || Case::new("cat_construct").with("a", a.iter().map(|r| r.name).collect::<Vec<_>>().join(",")).with("b", b.iter().map(|r| r.name).collect::<Vec<_>>().join(","));
+    let sa: Vec<SymbolSize> = a.iter().map(|r| r.size).collect();
+    let sb: Vec<SymbolSize> = b.iter().map(|r| r.size).collect();
+    let res = guard(|| {
+        let l1 = SymbolList::with_whitelist(sa.iter().copied());
+        let l2: SymbolList = sa.iter().copied().collect();
+        let mut l3 = SymbolList::with_whitelist(Vec::<SymbolSize>::new());
+        l3.extend(sa.iter().copied());
+        let l4: SymbolList = if sa.len() == 1 { sa[0].into() } else if sa.len() == 3 { [sa[0], sa[1], sa[2]].into() } else { SymbolList::with_whitelist(sa.iter().copied()) };
+        let mut l5 = SymbolList::with_whitelist(sa.iter().copied());
+        l5.extend(sb.iter().copied());
+        let mut l6 = SymbolList::default().enforce_square();
+        l6.extend(sb.iter().copied());
+        let v = |l: &SymbolList| l.iter().collect::<Vec<SymbolSize>>();
+        let into: Vec<SymbolSize> = l1.clone().into_iter().collect();
+        (v(&l1), v(&l2), v(&l3), v(&l4), v(&l5), v(&l6), into, l1.is_empty(), l1 == l2, CAT.iter().map(|r| l5.contains(&r.size)).collect::<Vec<bool>>())
+    });
+    let (v1, v2, v3, v4, v5, v6, into, empty, eq12, contains5) = match res {
+        Ok(x) => x,
+        Err(p) => return ctx.violation("panic", &case(), p),
+    };
+    let set_of = |rows: &[&'static Row]| {
+        let mut n: Vec<&'static str> = rows.iter().map(|r| r.name).collect();
+        n.sort();
+        n.dedup();
+        n
+    };
+    let names = |v: &Vec<SymbolSize>| {
+        let mut n: Vec<&'static str> = v.iter().map(|s| cat::row_of(*s).name).collect();
+        n.sort();
+        n
+    };
+    let want_a = set_of(a);
+    let mut ab: Vec<&'static Row> = a.to_vec();
+    ab.extend_from_slice(b);
+    let want_ab = set_of(&ab);
+    let mut sq: Vec<&'static Row> = CAT.iter().filter(|r| r.iso16022 && r.rows == r.cols).collect();
+    sq.extend_from_slice(b);
+    let want_sq = set_of(&sq);
+    for (nm, v, want) in [("with_whitelist", &v1, &want_a), ("from_iter", &v2, &want_a), ("extend_on_empty", &v3, &want_a), ("from_array_or_size", &v4, &want_a), ("extend", &v5, &want_ab), ("filter_then_extend", &v6, &want_sq)] {
+        if &names(v) != want || v.len() != want.len() {
+            return ctx.violation("list_construction_members", &case(), format!("{}: iterates {} sizes, expected the {} distinct members", nm, v.len(), want.len()));
+        }
+        let caps: Vec<usize> = v.iter().map(|s| cat::row_of(*s).data).collect();
+        if caps.windows(2).any(|w| w[0] > w[1]) {
+            return ctx.violation("iteration_order", &case(), format!("{}: capacities not non-decreasing: {:?}", nm, caps));
+        }
+    }
+    if into != v1 || empty != a.is_empty() || !eq12 {
+        return ctx.violation("list_api_disagreement", &case(), "into_iter / is_empty / == disagree with iter()");
+    }
+    for (i, r) in CAT.iter().enumerate() {
+        if contains5[i] != want_ab.contains(&r.name) {
+            return ctx.violation("filter_membership", &case(), format!("contains({}) after extend", r.name));
+        }
+    }
+    // a list grown in place must encode exactly like a list built fresh from the same sizes
+    if !ab.is_empty() {
+        let maxcap = ab.iter().map(|r| r.data).max().unwrap();
+        let mina = a.iter().map(|r| r.data).max().unwrap_or(0);
+        for need in [maxcap, mina + 1, (mina + maxcap) / 2 + 1] {
+            if need == 0 || need > maxcap {
+                continue;
+            }
+            // `need` lower-case letters cost `need` ASCII codewords at most; use digits to hit the capacity exactly
+            let msg: Vec<u8> = (0..2 * need).map(|i| b'0' + (i % 10) as u8).collect();
+            let r2 = guard(|| {
+                let mut grown = SymbolList::with_whitelist(sa.iter().copied());
+                grown.extend(sb.iter().copied());
+                let fresh = SymbolList::with_whitelist(sa.iter().copied().chain(sb.iter().copied()));
+                let g = DataMatrix::encode(&msg, grown).map(|d| d.size);
+                let f = DataMatrix::encode(&msg, fresh).map(|d| d.size);
+                (g, f)
+            });
+            match r2 {
+                Err(p) => return ctx.violation("panic", &case(), p),
+                Ok((g, f)) => {
+                    if g != f {
+                        return ctx.violation("grown_list_encodes_differently", &case(), format!("{} digits: list grown with extend() gives {:?}, the same sizes as a fresh list give {:?}", msg.len(), g, f));
+                    }
+                    if let Ok(sz) = g {
+                        let first = ab.iter().map(|r| r.data).filter(|c| *c >= need).min();
+                        if Some(cat::row_of(sz).data) != first {
+                            return ctx.violation("not_first_large_enough", &case(), format!("{} digits need {} codewords; picked capacity {}, smallest sufficient {:?}", msg.len(), need, cat::row_of(sz).data, first));
+                        }
+                    }
+                    ctx.count("construction.encode_checked");
+                }
+            }
+        }
+    }
+    ctx.count("construction.ok");
+    ctx.nontrivial(hash64(case().flat().as_bytes()));
+}
+
 fn rand_filter(ctx: &mut Ctx) -> Filter {
     let dims = [0usize, 8, 10, 12, 16, 18, 20, 22, 24, 26, 32, 36, 40, 44, 48, 52, 64, 80, 88, 96, 120, 144, 145, 200];
     let mut b = |ctx: &mut Ctx| match ctx.rng.below(5) {
@@ -373,6 +472,13 @@ pub fn run(ctx: &mut Ctx) {
         let wl = rand_whitelist(ctx);
         eval_filters(ctx, &wl, &[]);
     }
+    for i in 0..ctx.budget(40_000, 1_000_000) {
+        let na = if i % 7 == 0 { 0 } else if i % 5 == 0 { 3 } else if i % 3 == 0 { 1 } else { ctx.rng.range(1, 10) };
+        let nb = ctx.rng.below(6);
+        let a: Vec<&'static Row> = (0..na).map(|_| ctx.rng.pick(&CAT)).collect();
+        let b: Vec<&'static Row> = (0..nb).map(|_| ctx.rng.pick(&CAT)).collect();
+        eval_construction(ctx, &a, &b);
+    }
     // picks
     for _ in 0..ctx.budget(60_000, 2_000_000) {
         let spec = match ctx.rng.below(4) {
@@ -396,6 +502,10 @@ pub fn replay(ctx: &mut Ctx, case: &Case) {
         "cat_filter" => {
             let chain: Vec<Filter> = case.get("chain").unwrap_or("").split('+').filter(|s| !s.is_empty()).filter_map(Filter::parse).collect();
             eval_filters(ctx, case.get("base").unwrap_or("all"), &chain);
+        }
+        "cat_construct" => {
+            let rows = |k: &str| -> Vec<&'static Row> { case.get(k).unwrap_or("").split(',').filter(|s| !s.is_empty()).filter_map(cat::by_name).collect() };
+            eval_construction(ctx, &rows("a"), &rows("b"));
         }
         "cat_pick" => eval_pick(ctx, case.get("list").unwrap_or("default"), &case.get_bytes("msg")),
         _ => ctx.harness_error("unknown case kind"),
